@@ -1055,7 +1055,22 @@ impl ImplPrimitive {
             ImplPrimitive::IndexOf => env.dyadic_rr_env(Value::index_of)?,
             // Optimizations
             ImplPrimitive::AbsComplex => env.dyadic_oo_env(Value::abs_complex)?,
-            ImplPrimitive::SquareAbs => env.monadic_env(Value::square_abs)?,
+            ImplPrimitive::SquareAbs => env.monadic_env(|val, env| {
+                // Characters cannot be multiplied, also when there are none of them
+                fn has_no_chars(val: &Value) -> bool {
+                    match val {
+                        Value::Char(arr) => arr.element_count() == 0,
+                        Value::Box(arr) => arr.data.iter().any(|b| has_no_chars(&b.0)),
+                        _ => false,
+                    }
+                }
+                if has_no_chars(&val) {
+                    let abs = val.abs(env)?;
+                    abs.clone().mul(abs, env)
+                } else {
+                    val.square_abs(env)
+                }
+            })?,
             ImplPrimitive::NegAbs => env.monadic_env(Value::neg_abs)?,
             ImplPrimitive::FirstMinIndex => env.monadic_ref_env(Value::first_min_index)?,
             ImplPrimitive::FirstMaxIndex => env.monadic_ref_env(Value::first_max_index)?,
